@@ -228,6 +228,18 @@ func (c *Client) sendRepublishRequests(ctx context.Context, sub *Subscription, a
 				sub.nextSeq = sub.lastSeq + 1
 				debug.Printf("Republished notification %d for subscription %d", res.NotificationMessage.SequenceNumber, sub.SubscriptionID)
 
+				// a republished notification has been received like a published one:
+				// acknowledge it with the next publish request so that the server
+				// can drop it from its retransmission queue.
+				if len(res.NotificationMessage.NotificationData) > 0 {
+					c.subMux.Lock()
+					c.pendingAcks = append(c.pendingAcks, &ua.SubscriptionAcknowledgement{
+						SubscriptionID: sub.SubscriptionID,
+						SequenceNumber: res.NotificationMessage.SequenceNumber,
+					})
+					c.subMux.Unlock()
+				}
+
 				if len(availableSeq) > 0 && !slices.Contains(availableSeq, sub.nextSeq) {
 					debug.Printf("Republishing subscription %d complete - no more sequences in buffer", sub.SubscriptionID)
 					return nil
